@@ -9,7 +9,7 @@ PROPERTY = "C36"
 LEVEL = "exploration"
 RULE = ("two case families. (a) concatenate_stream_datums on a seeded set of 1..6 datums: tilings of an index interval in "
         "shuffled order (must be accepted, result = [min start, max stop) for indices and seq_nums) and the same with one "
-        "defect in {gap, overlap, duplicate, other descriptor, other resource} (must raise ValueError); distinct = (n, "
+        "defect in {gap, overlap, duplicate, gap and overlap of equal size, other descriptor, other resource} (must raise ValueError); distinct = (n, "
         "defect, order class). (b) a consolidator (base/CSV/HDF5) built from seeded (datum shape, chunk_shape, join_method, "
         "join_chunks, multiplier) consuming a seeded StreamDatum sequence; after construction and after every consume "
         "len(chunks)==len(shape), sum(chunks[d])==shape[d] and the seq_num->index map equals an independently built dict; "
@@ -49,10 +49,22 @@ def _concat_case(rng, i):
         cuts.append(cuts[-1] + rng.randint(1, 5))
     seq_off = rng.choice([1, 1, 4])
     docs = [_sd(f"u{k}", cuts[k], cuts[k + 1], seq_off=seq_off) for k in range(n)]
-    defect = rng.choice(["none", "none", "gap", "overlap", "duplicate", "descriptor", "resource"]) if n >= 2 else "none"
+    defect = rng.choice(["none", "none", "gap", "overlap", "duplicate", "descriptor", "resource", "gap+overlap"]) if n >= 2 else "none"
+    if defect == "gap+overlap" and n < 3:
+        defect = "gap"
     if defect == "gap":
         k = rng.randrange(1, n)
         g = rng.randint(1, 3)
+        for d in docs[k:]:
+            d["indices"] = {"start": d["indices"]["start"] + g, "stop": d["indices"]["stop"] + g}
+            d["seq_nums"] = {"start": d["seq_nums"]["start"] + g, "stop": d["seq_nums"]["stop"] + g}
+    elif defect == "gap+overlap":
+        # a duplicated block and a missing block of the SAME size (row count and span still agree)
+        k = rng.randrange(2, n)
+        j = rng.randrange(0, k - 1)
+        g = rng.randint(1, 2)
+        docs[j]["indices"] = {"start": docs[j]["indices"]["start"], "stop": docs[j]["indices"]["stop"] + g}
+        docs[j]["seq_nums"] = {"start": docs[j]["seq_nums"]["start"], "stop": docs[j]["seq_nums"]["stop"] + g}
         for d in docs[k:]:
             d["indices"] = {"start": d["indices"]["start"] + g, "stop": d["indices"]["stop"] + g}
             d["seq_nums"] = {"start": d["seq_nums"]["start"] + g, "stop": d["seq_nums"]["stop"] + g}
